@@ -15,6 +15,7 @@ open NcchFull
 open Romfs
 open Ncsd
 open Sd
+open Ivfc
 open Driver_base
 
 let opt f = function None -> "-" | Some x -> f x
@@ -222,6 +223,23 @@ let run_sdkey toks =
      | Err e -> "e:" ^ err_name e)
   | _ -> failwith "sdkey args"
 
+(* ivfc <bs1> <bs2> <bs3> <bs4> <L1> <L2> <L3> <L4> <master hashes concatenated> li,b ...  ->  T/F/N per request *)
+let run_ivfc toks =
+  match toks with
+  | b1 :: b2 :: b3 :: b4 :: l1 :: l2 :: l3 :: l4 :: mh :: reqs ->
+    let lv d b = { lv_data = bytes_of_hex d; lv_bs = z_of_hex b } in
+    let tree = [lv l1 b1; lv l2 b2; lv l3 b3; lv l4 b4] in
+    let mbytes = bytes_of_hex mh in
+    let rec chunks l = match l with [] -> [] | _ ->
+      let rec take n l = if n = 0 then ([], l) else match l with [] -> ([], []) | x :: r -> let (a, b) = take (n - 1) r in (x :: a, b) in
+      let (h, r) = take 32 l in h :: chunks r in
+    let master = chunks mbytes in
+    let rq = Stdlib.List.map (fun t -> match String.split_on_char ',' t with
+      | [a; b] -> (nat_of_int (int_of_string a), z_of_hex b) | _ -> failwith "req") reqs in
+    String.concat " " (Stdlib.List.map (fun v -> match v with Some true -> "T" | Some false -> "F" | None -> "N")
+      (run_blocks sha256 tree master rq cempty))
+  | _ -> failwith "ivfc args"
+
 let dispatch (line : string) : string =
   match String.split_on_char ' ' (String.trim line) with
   | "engine" :: toks -> run_engine toks
@@ -235,6 +253,7 @@ let dispatch (line : string) : string =
   | "romfs" :: toks -> run_romfs toks
   | "ncsd" :: toks -> run_ncsd toks
   | "sdkey" :: toks -> run_sdkey toks
+  | "ivfc" :: toks -> run_ivfc toks
   | e :: _ -> failwith ("unknown entry " ^ e)
   | [] -> ""
 
